@@ -272,9 +272,8 @@ Section Code.
     | n :: ir =>
         let s1 := set_int s ir in
         if -1 <? n then
-          let k := n + 1 in   (* (num_args + 1) as usize; i32 overflow at MAX is a debug panic *)
-          if 2147483647 <? k then (match p with Debug => Panic | Release => Ok s1 end)
-          else if k <=? zlen (st_name s1) then Ok (set_name s1 (skipn (Z.to_nat k) (st_name s1)))
+          let k := n + 1 in   (* num_args as usize + 1 *)
+          if k <=? zlen (st_name s1) then Ok (set_name s1 (skipn (Z.to_nat k) (st_name s1)))
           else Ok s1
         else Ok s1
     | [] => Ok s
